@@ -1771,6 +1771,8 @@ class Engine(object):
         c.result = result
         c.bound = dict(bound or {})
         c.implicit = 'assume'
+        if getattr(ctx, 'loop_entry_state', None) is not None:
+            c.loop_entry_state = ctx.loop_entry_state       # entry(e) / newer(x) stay usable inside quantifier bodies
         return c
 
     def spec_eval(self, expr, st, ctx):
